@@ -265,6 +265,16 @@ class Executor:
             if e == 'sext':
                 v = self.const_value(op[2], op[3])
                 return sgn(v, op[2].bits) & op[4].mask
+            if e == 'icmp':
+                a = self.const_value(op[3], op[4])
+                b = self.const_value(op[3], op[5])
+                bits = op[3].bits
+                pr = op[2]
+                if pr[0] == 's':
+                    a = sgn(a, bits)
+                    b = sgn(b, bits)
+                return int({'eq': a == b, 'ne': a != b, 'ult': a < b, 'ule': a <= b, 'ugt': a > b,
+                            'uge': a >= b, 'slt': a < b, 'sle': a <= b, 'sgt': a > b, 'sge': a >= b}[pr])
             if e in ('add', 'sub', 'mul', 'and', 'or', 'xor'):
                 a = self.const_value(op[2], op[3])
                 b = self.const_value(op[2], op[4])
@@ -1915,7 +1925,7 @@ class Executor:
         return sched.thread_finished(self, th, v)
 
     def async_pending(self):
-        v = self.load(self.async_flag_addr, 4)
+        v = self.load(self.async_flag_addr + 4 * self.st.cur, 4)
         return type(v) is int and v != 0
 
     def async_point(self, fr):
